@@ -224,6 +224,15 @@ Theorem bh_row_coincident_refuted :
 Proof. exact bh_row_coincident_refuted_thm. Qed.
 Print Assumptions bh_row_coincident_refuted.
 
+(* the repair fixes/F44_tsne_bh_coincident_self_neighbour.patch (query dropped by index, else the
+   farthest result): row n is over the K nearest OTHER samples for ALL data, coincident or not *)
+Theorem bh_neighbours_exact_fixed : forall d N t q K,
+  metric_on (in_range N) d -> in_range N q -> (K + 1 <= N)%nat ->
+  vp_inv d t -> Permutation (items t) (samples N) ->
+  exists l, bh_row_fixed d t q K = Some l /\ is_knn d N q K l.
+Proof. exact bh_neighbours_exact_fixed_thm. Qed.
+Print Assumptions bh_neighbours_exact_fixed.
+
 (* ---------------------------------------------------------------- sparse symmetrisation *)
 
 (* whatever symmetrizeMatrix returns (any input, any value type): N + 1 row pointers from 0,
@@ -246,6 +255,15 @@ Print Assumptions sparse_symmetrise_safe.
 
 Example sparse_symmetrise_safe_nonvacuous : wf_csr 3 (mkCsr [0; 1; 2; 3]%nat [1; 2; 0]%nat [1; 2; 3]%nat).
 Proof. exact wf_csr_example. Qed.
+
+(* ... and the result IS (P + P^T)/2: a well-formed CSR whose entry (r, x) is present exactly
+   when P(r,x) or P(x,r) is, with value half of their sum (operands in the order the code adds
+   them), each unordered pair in both rows *)
+Theorem sparse_symmetrise : forall V (vadd : V -> V -> V) (vhalf : V -> V) (p : csr V) N,
+  wf_csr N p ->
+  exists s, symmetrize V vadd vhalf p N = Ok s /\ sym_spec vadd vhalf N p s.
+Proof. exact symmetrize_represents. Qed.
+Print Assumptions sparse_symmetrise.
 
 (* the counting behind it: row_counts[x] (first pass) is exactly the number of times offset[x]
    is advanced (second pass), so every store sym_*_P[sym_row_P[x] + offset[x]] stays below
